@@ -168,6 +168,15 @@ def corpus():
          ("rule", A("r", "a"), [P(A("f")), N(A("f"))]), ("rule", A("r", "b"), [P(A("g"))]),
          ("rule", A("r", "a"), [P(A("r", "Z")), P(A("h"))]),
          ("query", A("r", "a")), ("query", A("r", "X"))])
+    add("repeated-variable-call-then-ground-call",
+        # the call r2(X,X) meets the head r2(a,Y): the artifact answer (a,b) must not be tabled as the answer of r2(a,b)
+        [("fact", A("dom", "a")), ("fact", A("dom", "b")),
+         ("ad", [("p1", A("c", "a"))], []), ("ad", [("p2", A("c", "b"))], []),
+         ("ad", [("p3", A("d", "a"))], []), ("ad", [("p4", A("d", "b"))], []),
+         ("rule", A("r2", "a", "Y"), [P(A("c", "Y")), P(A("d", "Y"))]),
+         ("rule", A("r2", "X", "Y"), [P(A("c", "Y")), P(A("dom", "X"))]),
+         ("rule", A("r3"), [P(A("r2", "X", "X")), P(A("r2", "a", "X"))]),
+         ("query", A("r3")), ("query", A("r2", "X", "Y"))])
     add("deterministic-true-queries-under-evidence",
         [("fact", A("dom", "a")), ("fact", A("dom", "b")), ("fact", A("t")),
          ("ad", [("p1", A("a"))], []), ("ad", [("p2", A("b"))], []),
